@@ -37,6 +37,8 @@ def TJ(t):
     return ['Bool']
   if t[0] == 'l':
     return ['L', TJ(t[1])]
+  if t[0] == 'tie':     # gen.py: value of ArgMin/ArgMax (not unique on ties)
+    return TJ(t[1])
   if t[0] == 'r':
     return ['R', {f: TJ(ft) for f, ft in t[1]}]
   raise ValueError(t)
@@ -68,8 +70,8 @@ class TypedGen(gen.Gen):
       return e
     return self.Cond(env, depth)
 
-  def Cond(self, env, depth=0):
-    e = super().Cond(env, depth)
+  def Cond(self, env, depth=0, *args, **kw):
+    e = super().Cond(env, depth, *args, **kw)
     e['typ'] = TJ('b')
     bs = self.VarsOf(env, 'b')
     if bs and self.rng.random() < 0.3:
@@ -80,7 +82,7 @@ class TypedGen(gen.Gen):
       e['typ'] = TJ('b')
     return e
 
-  def Expr(self, t, env, depth=0, allow_pcall=True):
+  def Expr(self, t, env, depth=0, *args, **kw):
     r = self.rng
     if t == 'b':
       return self.BoolExpr(env, depth)
@@ -96,14 +98,14 @@ class TypedGen(gen.Gen):
         e = Sub(rv, f)
         e['typ'] = TJ(t)
         return e
-    e = super().Expr(t, env, depth, allow_pcall)
+    e = super().Expr(t, env, depth, *args, **kw)
     if t[0] == 'l' and e['k'] == 'list' and not e['items']:
       e['items'].append(self.Expr(t[1], env, depth + 1, False))
     e.setdefault('typ', TJ(t))
     return e
 
-  def HeadFields(self, functional, max_pos=2):
-    fields = super().HeadFields(functional, max_pos)
+  def HeadFields(self, functional, *args, **kw):
+    fields = super().HeadFields(functional, *args, **kw)
     r = self.rng
     if r.random() < self.P_BOOL_COL:
       cands = [i for i, (f, _) in enumerate(fields) if f != 'logica_value']
@@ -114,8 +116,58 @@ class TypedGen(gen.Gen):
         fields.append(('w', 'b'))
     return fields
 
+  def Inline(self):
+    """An injectible predicate must constrain each of its parameters (else
+    the parameter's type is not determined by the program)."""
+    for _ in range(12):
+      n_s, n_p, cnt = len(self.sigs), len(self.preds), self.counter
+      super().Inline()
+      rule = self.preds[-1]['rules'][0]
+      params = [h['e']['name'] for h in rule['head']
+                if h['f'] in self.sigs[-1].params]
+      if all(_Constrains(rule, v) for v in params):
+        return
+      del self.sigs[n_s:]
+      del self.preds[n_p:]
+    super().Inline()
+
   def Gamma(self):
     return {s.name: {f: TJ(t) for f, t in s.fields} for s in self.sigs}
+
+
+def _Constrains(rule, name):
+  """Some occurrence of variable `name` (other than as a bare head argument)
+  fixes its type: operand of + - * ++, argument of a predicate, or compared
+  with a literal."""
+  found = []
+
+  def Is(e):
+    return isinstance(e, dict) and e.get('k') == 'var' and e['name'] == name
+
+  def Go(x):
+    if isinstance(x, dict):
+      k = x.get('k')
+      if k == 'op' and x['op'] in ('+', '-', '*', '++') and any(
+          Is(a) for a in x['args']):
+        found.append(1)
+      if k == 'op' and x['op'] in ('==', '!=', '<', '<=', '>', '>=') and \
+          x['op'] != '!=' and len(x['args']) == 2:
+        a, b = x['args']
+        if (Is(a) and b.get('k') == 'lit') or (Is(b) and a.get('k') == 'lit'):
+          found.append(1)
+      if k in ('atom', 'pcall') and any(Is(a['e']) for a in x['args']):
+        found.append(1)
+      if k == 'unify' and ((Is(x['l']) and x['r'].get('k') == 'lit') or
+                           (Is(x['r']) and x['l'].get('k') == 'lit')):
+        found.append(1)
+      for v in x.values():
+        Go(v)
+    elif isinstance(x, list):
+      for v in x:
+        Go(v)
+  Go(rule['body'])
+  Go([h['e'] for h in rule['head'] if not Is(h['e'])])
+  return bool(found)
 
 
 def _Undetermined(x):
